@@ -174,6 +174,13 @@ class Sorts:
                             z3.If(L.is_nil(l), L.nil,
                                   z3.If(L.head(l) == x, L.tail(l),
                                         L.cons(L.head(l), self.remove_first(L.tail(l), x)))))
+        # value stored under key x in a dict given as parallel key / value lists (None if absent)
+        self.assoc = z3.RecFunction("assoc", L, L, P, P)
+        m2 = z3.Const("m2", L)
+        z3.RecAddDefinition(self.assoc, [l, m2, x],
+                            z3.If(z3.Or(L.is_nil(l), L.is_nil(m2)), P.PNone,
+                                  z3.If(L.head(l) == x, L.head(m2),
+                                        self.assoc(L.tail(l), L.tail(m2), x))))
         self.contains = z3.RecFunction("contains", L, P, z3.BoolSort())
         z3.RecAddDefinition(self.contains, [l, x],
                             z3.If(L.is_nil(l), z3.BoolVal(False),
